@@ -9,6 +9,7 @@ package c18
 
 import (
 	"context"
+	"encoding/json"
 	"fmt"
 	"net/http"
 	"net/http/httptest"
@@ -16,6 +17,7 @@ import (
 	"os"
 	"regexp"
 	"sort"
+	"strconv"
 	"strings"
 	"sync"
 
@@ -23,6 +25,7 @@ import (
 	"github.com/caddyserver/caddy/v2/modules/caddyhttp"
 	"github.com/caddyserver/caddy/v2/modules/caddyhttp/headers"
 	maphandler "github.com/caddyserver/caddy/v2/modules/caddyhttp/map"
+	"github.com/caddyserver/caddy/v2/modules/caddyhttp/rewrite"
 
 	"verif/harness/internal/core"
 )
@@ -436,4 +439,137 @@ func dumpPlain(h http.Header) string {
 		sb.WriteString(k + "\x00" + strings.Join(vs, "\x00") + "\x00")
 	}
 	return sb.String()
+}
+
+// ---------------------------------------------------------------- rewrite modifiers
+//
+// httprwm <prefix> <suffix> <subFind> <subReplace> <subLimit> <a|l|-> <P> <S> <reReplace> <path> <rawQuery> <secret>
+// strip_path_prefix, strip_path_suffix, one uri_substring entry, one path_regexp entry (empty = not
+// configured) on a request with the given URL.Path (RawPath empty) and RawQuery.
+// Answer: ok <Path> <RawPath> <RawQuery> afterwards.
+
+var rwmOperands = []string{
+	"", "", "/a", "a", "/A", "/a/", "b", "/x%2Fy", "%2f", "//", "/a//b", ".txt", "/{http.request.uri.query}", "{http.request.uri.path}",
+	"{env.VERIF_C18_UNSET}", "{zz.unk}", "/a{zz.unk}", "{", "}", "q", "=", "{http.request.uri}",
+}
+
+var rwmReplacements = []string{
+	"", "R", "/", "$1", "[$1]", "${1}x", "%7B", "%41", "%", "{http.request.uri.query}", "{env." + secretEnv + "}", "{zz.unk}", "{", "?", "%2F", "a",
+}
+
+var rwmPathPieces = []string{
+	"/", "/", "a", "a", "b", "A", "x/y", "//", ".", "..", "/./", ".txt", "%", "%41", " ", "{env." + secretEnv + "}", "{http.request.uri.query}", "{", "}", "?", "q", "+", "x%2Fy", "%2f", "&", "=",
+}
+
+func genRwm(rng *core.Rand, emit func(string)) {
+	cat := func(ps []string, max int) string {
+		var sb strings.Builder
+		for j := rng.Intn(max); j > 0; j-- {
+			sb.WriteString(rng.Pick(ps))
+		}
+		return sb.String()
+	}
+	pre, suf, sf, sr, lim, kind, p, s, rr := "", "", "", "", 0, "-", "", "", ""
+	if rng.Chance(1, 2) {
+		pre = rng.Pick(rwmOperands)
+	}
+	if rng.Chance(1, 3) {
+		suf = rng.Pick(rwmOperands)
+	}
+	if rng.Chance(1, 2) {
+		sf, sr, lim = rng.Pick(rwmOperands), rng.Pick(rwmReplacements), []int{0, 0, 1, 2}[rng.Intn(4)]
+	}
+	if rng.Chance(1, 2) {
+		kind = rng.Pick([]string{"a", "l"})
+		if kind == "a" {
+			p, s = rng.Pick([]string{"/a", "/", "", "/x"}), rng.Pick([]string{"", ".txt", "/", "}"})
+		} else {
+			p = rng.Pick([]string{"a", "/", "{", "}", "%", "//", "env"})
+		}
+		rr = rng.Pick(rwmReplacements)
+	}
+	path := "/" + cat(rwmPathPieces, 6)
+	secret := rng.Pick([]string{"S3CR3T-ENV-9942", "S3CR3T-ENV-9942", "a&b=c d", ""})
+	emit(fmt.Sprintf("httprwm %s %s %s %s %d %s %s %s %s %s %s %s", core.Hex(pre), core.Hex(suf), core.Hex(sf), core.Hex(sr), lim, kind,
+		core.Hex(p), core.Hex(s), core.Hex(rr), core.Hex(path), core.Hex(cat(rwQueryPieces, 4)), core.Hex(secret)))
+}
+
+func runRwm(line string, f []string) core.Outcome {
+	bad := core.Outcome{Impl: "bad-op"}
+	v, ok := unhexAll(f, map[int]bool{0: true, 5: true, 6: true})
+	if !ok || !isASCII(v...) {
+		return bad
+	}
+	for _, x := range v {
+		if x == "!" {
+			return bad
+		}
+	}
+	pre, suf, sf, sr, kind, p, s, rr, path, rawQuery, secret := v[1], v[2], v[3], v[4], v[6], v[7], v[8], v[9], v[10], v[11], v[12]
+	lim, err := strconv.Atoi(f[5])
+	if err != nil || lim < 0 || lim > 9 || strings.HasPrefix(f[5], "+") {
+		return bad
+	}
+	cfg := map[string]any{}
+	if pre != "" {
+		cfg["strip_path_prefix"] = pre
+	}
+	if suf != "" {
+		cfg["strip_path_suffix"] = suf
+	}
+	if sf != "" {
+		cfg["uri_substring"] = []any{map[string]any{"find": sf, "replace": sr, "limit": lim}}
+	}
+	switch kind {
+	case "-":
+	case "a", "l":
+		pat, okp := patText(kind, p, s)
+		if !okp {
+			return bad
+		}
+		cfg["path_regexp"] = []any{map[string]any{"find": pat, "replace": rr}}
+	default:
+		return bad
+	}
+	raw, _ := json.Marshal(cfg)
+	var rw rewrite.Rewrite
+	if err := json.Unmarshal(raw, &rw); err != nil {
+		return core.Outcome{Impl: "err:config"}
+	}
+	o := core.Outcome{Tags: []string{"op:httprwm"}}
+	if err := rw.Provision(caddy.Context{}); err != nil {
+		o.Impl = "err:provision"
+		return o
+	}
+	os.Setenv(secretEnv, secret)
+	defer os.Unsetenv(secretEnv)
+	consFiles()
+	req := httptest.NewRequest("GET", "http://example.test/", nil)
+	req.URL.Path, req.URL.RawPath, req.URL.RawQuery = path, "", rawQuery
+	req.RequestURI = req.URL.RequestURI()
+	ctx := context.WithValue(req.Context(), caddyhttp.VarsCtxKey, map[string]any{})
+	req = req.WithContext(ctx)
+	repl := caddyhttp.NewTestReplacer(req)
+	panicked := func() (pv any) {
+		defer func() { pv = recover() }()
+		rw.Rewrite(req, repl)
+		return nil
+	}()
+	if panicked != nil {
+		o.Impl = "panic"
+		return o
+	}
+	o.Impl = "ok " + core.Hex(req.URL.Path) + " " + core.Hex(req.URL.RawPath) + " " + core.Hex(req.URL.RawQuery)
+	if strings.ContainsAny(path+rawQuery, "{}") {
+		o.Tags = append(o.Tags, "attacker-value-has-braces")
+	}
+	for k := range cfg {
+		o.Tags = append(o.Tags, "rwm:"+k)
+	}
+	if req.URL.Path != path || req.URL.RawQuery != rawQuery {
+		o.Tags = append(o.Tags, "rwm:changed")
+	}
+	secretOracle(&o, "rewrite-expands-request-text", fmt.Sprintf("rewrite modifiers %s on path %q query %q", raw, path, rawQuery),
+		req.URL.Path+"\x00"+req.URL.RawPath+"\x00"+req.URL.RawQuery, secret, pre, suf, sf, sr, rr)
+	return o
 }
